@@ -47,12 +47,15 @@ def getRexPrefix (s : Instr) (m r : Operand) : Instr × Nat :=
     let rex := if band rm c_reg64 || band r.reg c_reg64 then rex ||| c_rex_w else rex
     (s, if band rex c_REX_W_RXB then c_rex_ ||| rex else 0)
 
+/-- does the "sib with no base" rule of get_reg apply to this operand? -/
+def noBaseFires (m : Operand) : Bool := m.reg == c_reg_none && m.index != c_reg_none
+
 /-- first part of `get_reg`: a memory operand with index but without base register
     ("sib with no base") is rewritten, depending on NASM_SIB_NO_BASE and the scale -/
-def noBaseAdjust (s : Instr) (m : Operand) : Instr × Operand :=
-  if m.reg == c_reg_none && m.index != c_reg_none then
+def noBaseAdjust (opt : Nat) (s : Instr) (m : Operand) : Instr × Operand :=
+  if noBaseFires m then
     let (s, m) :=
-      if band s.opt c_NASM_SIB_NO_BASE then
+      if band opt c_NASM_SIB_NO_BASE then
         if s.sibDisp == c_SIB then (s, { m with reg := m.index, index := c_reg_none })
         else if s.sibDisp == c_SIB2 then ({ s with sibDisp := c_SIB }, { m with reg := m.index })
         else ({ s with noBase := true }, { m with reg := c_NO_BASE })
@@ -75,8 +78,8 @@ def getRegFinish (s : Instr) (m : Operand) (r : Nat) : R Instr :=
         reg := s.modDisp ||| ((r &&& c_VALUE_MASK) <<< 3) ||| c_rex_r } }
 
 /-- `get_reg(instrc, &instrc->opd[mi], r)`; `r` is the C `int` as 32-bit two's complement. -/
-def getReg (s : Instr) (mi : Nat) (r : Nat) : R Instr :=
-  let sm := noBaseAdjust s (s.opd mi)
+def getReg (opt : Nat) (s : Instr) (mi : Nat) (r : Nat) : R Instr :=
+  let sm := noBaseAdjust opt s (s.opd mi)
   getRegFinish (sm.1.setOpd mi sm.2) sm.2 r
 
 end AL.Impl
